@@ -1084,7 +1084,7 @@ class C19(Base):
             for m in self.TAG_RE.finditer(l):
                 closing, name, attrs = m.group(1), m.group(2), m.group(3)
                 if not closing:
-                    stack.append((name, ln, "unwrap-block" in attrs.split()))
+                    stack.append((name, ln, any(w == "unwrap-block" or w.startswith("unwrap-block=") for w in attrs.split())))
                 else:
                     for k in range(len(stack) - 1, -1, -1):
                         if stack[k][0] == name:
